@@ -106,6 +106,11 @@ type Transport struct {
 	// recording it (as a routing / gateway HTTPClient may do with the request
 	// that belongs to this one call): a later call must not see the rewrite.
 	MutateURL bool
+	// ReqChunk is the size of the transport's reads of the request body in
+	// eager mode (default 32 KiB).  A small value makes the transport take each
+	// message the client writes in several pieces, so that a close of the
+	// request body can land in the middle of a Write.
+	ReqChunk int
 	// PromptCancel restores an idealised transport that notices the end of the
 	// request context at once in every state (HTTP/1.1 does; HTTP/2 does not
 	// while its body sender is blocked reading an idle request body).
@@ -618,7 +623,11 @@ func (c *call) writeHeaderOnce(status int) {
 }
 
 func (c *call) pump() {
-	buf := make([]byte, 32*1024)
+	size := 32 * 1024
+	if c.t.ReqChunk > 0 {
+		size = c.t.ReqChunk
+	}
+	buf := make([]byte, size)
 	for {
 		c.t.gate("T.pump")
 		c.mu.Lock()
